@@ -205,6 +205,20 @@ def gen_lines(ctx, deep=False):
             sid = "t%d" % rng.randrange(k)
             calls.append({"site": sid, "key": site_key(sid, alts, style), "alts": alts, "perm": rng.sample(range(n), n), "style": style})
         lines.append({"op": "oneof", "calls": calls})
+    # a site interrupted by MANY other sites (a bounded or evicting memory would lose its history): the site is
+    # called once or mid-cycle, then 1 100..2 300 distinct other sites are called, then it goes on for three cycles
+    for n, first_calls, others in ((2, 1, 1100), (3, 2, 1500), (4, 1, 2300), (3, 4, 1200)):
+        calls = []
+        alts = "v" * n
+        for _ in range(first_calls):
+            calls.append({"site": "X", "key": site_key("X", alts, "list"), "alts": alts, "perm": rng.sample(range(n), n), "style": "list"})
+        for j in range(others):
+            m = 2 + (j % 3)
+            a2 = "v" * m
+            calls.append({"site": "o%d" % j, "key": site_key("o%d" % j, a2, "list"), "alts": a2, "perm": rng.sample(range(m), m), "style": "list"})
+        for _ in range(3 * n + 1):
+            calls.append({"site": "X", "key": site_key("X", alts, "list"), "alts": alts, "perm": rng.sample(range(n), n), "style": "list"})
+        lines.append({"op": "oneof", "calls": calls})
     # choice and mix
     for n in range(0, 6):
         for pat in set("".join(p) for p in itertools.product("vf", repeat=n)):
